@@ -724,7 +724,24 @@ fn check_pure(case: &Case, obs: &mut Obs) {
     let f2 = case.spec.family == Family::SaftVRMie
         && (o.max_eta != d.max_eta || o.tol_cross_assoc != d.tol_cross_assoc || o.max_iter_cross_assoc != d.max_iter_cross_assoc);
     check_pure2(case, &mut inner, f2);
-    let fails = std::mem::take(&mut inner.fails);
+    let mut fails = std::mem::take(&mut inner.fails);
+    if !fails.is_empty() && !f2 {
+        // Two builds of the same model are not bitwise identical (group-contribution models sum
+        // over HashMaps whose iteration order differs per instance), and an equilibrium solver
+        // on a knife edge between the solution and a near-trivial one (C05 findings) then ends
+        // differently from run to run. A sub-model that really differs from the directly built
+        // model fails in every repetition; if one of three repetitions with freshly built models
+        // agrees completely, the deviation is not a property of the sub-model.
+        for _ in 0..3 {
+            let mut again = Obs::default();
+            check_pure2(case, &mut again, f2);
+            if again.fails.is_empty() {
+                obs.class("solver result not reproducible between two builds of the same model (knife-edge start): not attributed to the sub-model");
+                fails.clear();
+                break;
+            }
+        }
+    }
     obs.classes.extend(inner.classes);
     obs.discards.extend(inner.discards);
     obs.comparisons += inner.comparisons;
